@@ -567,8 +567,11 @@ def run(ctx):
 
     tl = dict(zip([j[1] for j in jobs], vlib.pmap(tlc_job, jobs, workers=len(jobs))))
     exh = tl["Q" if quick else "A"][0]
-    if not quick and exh.coverage_zero:
-        raise Inconclusive("exhaustive config never takes: %s" % sorted(set(exh.coverage_zero)))
+    # vacuity: every action of the spec must be taken in the exhaustive config (Foreign needs two keys; it is
+    # exercised by the D configs)
+    never = sorted(set(exh.coverage_zero) - {"Foreign"})
+    if not quick and never:
+        raise Inconclusive("exhaustive config never takes: %s" % never)
     states = sum(t[0].distinct for t in tl.values())
     transitions = sum(t[0].generated for t in tl.values())
 
